@@ -24,7 +24,8 @@ Keyed == cfg.cont = "keyed"
 FsInit(c) == [slen |-> 0, free |-> <<>>, keys |-> {}, st |-> [i \in 0..(c.n - 1) |-> "N"], cap |-> c.n,
               owner |-> [i \in 0..(c.n - 1) |-> -1], ever |-> <<>>, queue |-> <<>>, scan |-> <<>>,
               doneCount |-> 0, streamCount |-> 0, nins |-> 0, nrem |-> 0, nres |-> 0]
-Init == \E c \in Cfgs : InitEnv(c, 0, FsInit(c))
+InitFor(c) == InitEnv(c, 0, FsInit(c))
+Init == \E c \in Cfgs : InitFor(c)
 
 GLen(f) == Cardinality(f.keys \ Range(f.queue))          \* slab.len(): occupied entries
 Occupied(f) == f.keys \ Range(f.queue)
@@ -165,7 +166,7 @@ Drop == DropWith(DropEvents)
 ChildPanic == PanicWith(DropEvents)
 
 Next == EnvNext \/ PollBegin \/ ScanStep \/ ChildAnswer \/ ChildPanic \/ Drop
-        \/ Insert \/ ReserveOp(0) \/ ReserveOp(1) \/ ReserveOp(2) \/ \E k \in 0..7 : Remove(k)
+        \/ Insert \/ (\E a \in 0..(IF TraceMode THEN 8 ELSE 2) : ReserveOp(a)) \/ \E k \in Range(fs.ever) : Remove(k)
 NextLive == Next \/ \E c \in Ch : OwedWake(c)
 Spec == Init /\ [][Next]_vars
 LiveSpec == Init /\ [][NextLive]_vars
